@@ -77,7 +77,7 @@ def t2(run: Run, prog: Program):
                         f"adjacency afterwards: plot and network disagree")
             # def-use of the adjacency argument (only for methods defined in C)
             if f.cls is C:
-                _t2_defuse(run, C, f, M)
+                _t2_defuse(run, C, f, M, prog)
 
 
 def _unfollowed(t, first: set, then: set):
@@ -134,7 +134,49 @@ def _unfollowed(t, first: set, then: set):
     return bad
 
 
-def _t2_defuse(run, C, f, M):
+def _adj_facts(prog, C, fnode, sn, M, expr, before_line, depth=0):
+    """(from_matrix, copied, cleared, text) of the value of `expr` evaluated in
+    function `fnode` before line `before_line`: derived from the matrix cell M of
+    `sn`, a fresh copy, main diagonal cleared.  Names are followed to their
+    reaching definition, `sn.helper()` calls into the helper's returns."""
+    mtxt = [f"{sn}.{M}", f"{sn}._{M}"]
+    if isinstance(expr, ast.Name):
+        defs = [n for n in ast.walk(fnode) if isinstance(n, ast.Assign)
+                and len(n.targets) == 1 and isinstance(n.targets[0], ast.Name)
+                and n.targets[0].id == expr.id and n.lineno < before_line]
+        if not defs:
+            return None
+        first = defs[0]
+        fm, cp, cl, txt = _adj_facts(prog, C, fnode, sn, M, first.value, first.lineno,
+                                     depth) or (False, False, False, "")
+        for n in ast.walk(fnode):
+            if getattr(n, "lineno", 0) and first.lineno < n.lineno < before_line and \
+                    isinstance(n, ast.stmt) and diagonal_clear_target(n) == expr.id:
+                cl = True
+        return fm, cp, cl, f"{expr.id} = {ast.unparse(first.value)}"
+    if isinstance(expr, ast.Call) and isinstance(expr.func, ast.Attribute) and \
+            isinstance(expr.func.value, ast.Name) and expr.func.value.id == sn and \
+            depth < 3:
+        h = prog.lookup(C, expr.func.attr)
+        if h is not None and h.params:
+            hs = h.params[0]
+            rets = [r for r in ast.walk(h.node) if isinstance(r, ast.Return)
+                    and r.value is not None]
+            facts = [_adj_facts(prog, C, h.node, hs, M, r.value, r.lineno, depth + 1)
+                     for r in rets]
+            if facts and all(x is not None for x in facts):
+                return (all(x[0] for x in facts), all(x[1] for x in facts),
+                        all(x[2] for x in facts),
+                        f"{ast.unparse(expr)} -> " + "; ".join(x[3] for x in facts))
+            return None
+    src = ast.unparse(expr)
+    fm = any(t in src for t in mtxt)
+    minus_eye = any(minus_identity_of(expr, t) for t in mtxt)
+    cp = fm and (minus_eye or any(is_copy_of(expr, t) for t in mtxt))
+    return fm, cp, minus_eye, src
+
+
+def _t2_defuse(run, C, f, M, prog=None):
     """Network.__init__(self, A, ...) must receive a copy of the matrix with
     its diagonal cleared."""
     sn = f.params[0]
@@ -145,28 +187,13 @@ def _t2_defuse(run, C, f, M):
             continue
         a = c.args[1]
         inst = f"{f.qualname}:adjacency-arg@{c.lineno}"
-        if not isinstance(a, ast.Name):
+        facts = _adj_facts(prog, C, f.node, sn, M, a, c.lineno)
+        if facts is None:
             run.oblige("T2", inst, True, nontrivial=False)
+            run.unknowns.append(f"T2 {f.qualname}: adjacency argument "
+                                f"`{ast.unparse(a)}` not resolved")
             continue
-        # reaching definitions of the local in straight-line order
-        defs = [n for n in ast.walk(f.node) if isinstance(n, ast.Assign)
-                and len(n.targets) == 1 and isinstance(n.targets[0], ast.Name)
-                and n.targets[0].id == a.id and n.lineno < c.lineno]
-        if not defs:
-            run.oblige("T2", inst, True, nontrivial=False)
-            continue
-        first = defs[0]
-        src = ast.unparse(first.value)
-        mtxt = [f"{sn}.{M}", f"{sn}._{M}"]
-        from_matrix = any(t in src for t in mtxt)
-        minus_eye = any(minus_identity_of(first.value, t) for t in mtxt)
-        copied = from_matrix and (minus_eye or any(is_copy_of(first.value, t)
-                                                   for t in mtxt))
-        cleared = minus_eye
-        for n in ast.walk(f.node):
-            if getattr(n, "lineno", 0) and first.lineno < n.lineno < c.lineno and \
-                    isinstance(n, ast.stmt) and diagonal_clear_target(n) == a.id:
-                cleared = True
+        from_matrix, copied, cleared, src = facts
         ok = from_matrix and copied and cleared
         run.oblige("T2", inst, ok, sample={
             "where": f"{f.module.relpath}:{c.lineno}", "def": src,
@@ -177,7 +204,7 @@ def _t2_defuse(run, C, f, M):
                     "keeps the diagonal (self-recurrences become self-loops)")
             run.add("T2", f"{f.qualname}/adjacency-arg", f"{f.module.relpath}:{c.lineno}",
                     f"{f.qualname}: the adjacency handed to Network.__init__ "
-                    f"(`{a.id} = {src}`) {what}")
+                    f"(`{src}`) {what}")
 
 
 def t3(run: Run, prog: Program):
@@ -332,6 +359,37 @@ def t4(run: Run, prog: Program):
                             f"longer is the size of `{M}` (users of N such as the "
                             f"diagonal stride `flat[::N+1]` address the wrong cells)")
     run.floor("T4 matrix/N pairs", n, 4)
+
+
+def t8(run: Run, cy: CyProgram):
+    """Distance kernels compute at the precision of their input: no floating
+    local (accumulator, difference) is declared narrower than the embedding
+    buffers it is computed from.  A narrowed intermediate moves distances by
+    ~1e-8 relative, which flips `distance < threshold` for near-threshold pairs
+    and makes the rp/crp siblings disagree."""
+    from .precision import float_widths
+    mod = cy.modules["pyunicorn.timeseries._ext.numerics"]
+    W = float_widths(cy.types)
+    n = 0
+    for f in sorted(mod.funcs.values(), key=lambda f: f.name):
+        if "_distance_matrix_" not in f.name:
+            continue
+        inw = [W[t.name] for _, t in f.args if t.kind in ("buffer", "memview")
+               and t.name in W]
+        if not inw:
+            continue
+        n += 1
+        mx = max(inw)
+        nar = [(nm, t.name, ln) for nm, (t, init, ln) in f.locals.items()
+               if t.kind == "simple" and t.name in W and W[t.name] < mx]
+        run.oblige("T8", f"{f.name}:intermediates", not nar, sample={"where": f.where})
+        for nm, tn, ln in nar:
+            run.add("T8", f"{f.name}/narrow-intermediate", f"{mod.relpath}:{ln or f.line}",
+                    f"{f.name} declares the floating local `{nm}` as {tn} "
+                    f"({W[tn] * 8} bit) although its inputs are {mx * 8}-bit: the "
+                    f"distance is rounded to single precision on the way, unlike in "
+                    f"its sibling kernels")
+    run.floor("T8 distance kernels", n, 6)
 
 
 def t7(run: Run, prog: Program):
@@ -533,6 +591,8 @@ def t6(run: Run, cy: CyProgram):
 
 
 def check(run: Run, prog: Program, cy: CyProgram, sites=None):
+    run.rule("T8", "distance kernels keep every floating intermediate at the "
+             "precision of their input buffers")
     run.rule("T7", "a matrix block sized by a stored length is filled from a plot built "
              "on the series that length was measured on")
     run.rule("T6", "library calls inside the plot family's kernels respect the "
@@ -563,3 +623,4 @@ def check(run: Run, prog: Program, cy: CyProgram, sites=None):
     t5(run, cy)
     t6(run, cy)
     t7(run, prog)
+    t8(run, cy)
